@@ -308,6 +308,63 @@ fn history_check<T: Real>(pk: PK, n: usize, d: FftDirection, rep: &mut Report) {
     }
 }
 
+/// Auxiliary, NOT what the claimed level rests on: 16 free-running OS threads on one shared instance, bitwise oracle.
+/// This is sampling of schedules; it exists for state that is written and read with no scheduling point in between.
+fn free_running<T: Real>(pk: PK, n: usize, rounds: usize) -> (u64, Option<String>) {
+    let mut pl = match AnyPlanner::<T>::new(pk) {
+        Some(p) => p,
+        None => return (0, None),
+    };
+    let fft = match plan_catch(&mut pl, n, FftDirection::Forward) {
+        Ok(f) => f,
+        Err(_) => return (0, None),
+    };
+    let shared = Arc::new(Shared(fft));
+    let nthreads = 16;
+    // every thread has its own input; expected results come from a second, fresh instance
+    let fresh = AnyPlanner::<T>::new(pk).unwrap().plan(n, FftDirection::Forward);
+    let cases: Vec<(Entry, usize, Vec<C<T>>, Vec<C<T>>)> = (0..nthreads)
+        .map(|t| {
+            let e = Entry::ALL[t % 4];
+            let k = 1 + t % 2;
+            let x = dense_vec::<T>(n * k, 500 + t as u64);
+            let want = call_plain(fresh.as_ref(), e, &x).out.unwrap_or_default();
+            (e, k, x, want)
+        })
+        .collect();
+    let cases = Arc::new(Shared(cases));
+    let bad: Arc<Mutex<Option<String>>> = Arc::new(Mutex::new(None));
+    let start = Arc::new(std::sync::Barrier::new(nthreads));
+    let mut calls = 0u64;
+    std::thread::scope(|s| {
+        let mut hs = Vec::new();
+        for t in 0..nthreads {
+            let (sh, cs, bad, start) = (Arc::clone(&shared), Arc::clone(&cases), Arc::clone(&bad), Arc::clone(&start));
+            hs.push(s.spawn(move || {
+                let (sh, cs) = (sh, cs);
+                let (e, k, x, want) = &cs.0[t];
+                start.wait();
+                let mut c = 0u64;
+                for r in 0..rounds {
+                    let got = call_plain(sh.0.as_ref(), *e, x).out;
+                    c += 1;
+                    let ok = got.as_ref().map(|g| same_bits(g, want)).unwrap_or(false);
+                    if !ok {
+                        *bad.lock().unwrap() = Some(format!("thread {} round {}: {} k={} on the shared instance differs bit-wise from the same call on a private fresh instance", t, r, e.name(), k));
+                        break;
+                    }
+                }
+                c
+            }));
+        }
+        for h in hs {
+            calls += h.join().unwrap_or(0);
+        }
+    });
+    let b = bad.lock().unwrap().clone();
+    (calls, b)
+}
+
 fn probe(rep: &mut Report) {
     let manifest = root().join("probe").join("Cargo.toml");
     let out = std::process::Command::new("cargo")
@@ -418,8 +475,8 @@ pub fn run(ctx: &Ctx) -> i32 {
     let specs2 = [ThreadSpec { entry: Entry::InPlace, k: 1, salt: 1 }, ThreadSpec { entry: Entry::Immut, k: 2, salt: 2 }];
     let specs2b = [ThreadSpec { entry: Entry::OutOfPlace, k: 2, salt: 3 }, ThreadSpec { entry: Entry::Process, k: 1, salt: 4 }];
     let specs3 = [ThreadSpec { entry: Entry::InPlace, k: 1, salt: 1 }, ThreadSpec { entry: Entry::Immut, k: 1, salt: 2 }, ThreadSpec { entry: Entry::OutOfPlace, k: 1, salt: 5 }];
-    let budget_op: u64 = t.pick(12_000, 400_000);
-    let budget_chunk: u64 = t.pick(20_000, 400_000);
+    let budget_op: u64 = t.pick(20_000, 600_000);
+    let budget_chunk: u64 = t.pick(25_000, 600_000);
     let results: Vec<Vec<HarnessResult>> = par_map(&jobs, |_, job| {
         let mut out = Vec::new();
         match &job.0 {
@@ -527,6 +584,23 @@ pub fn run(ctx: &Ctx) -> i32 {
         for p in parts {
             rep.merge(p);
         }
+    }
+    // ---- auxiliary free-running pass (sampling; see DESIGN §3 C11 'honest limit')
+    if only.is_none() {
+        let mut calls = 0u64;
+        for pk in PK::DISTINCT {
+            for n in [16usize, 37, 83, 96, 1184] {
+                let (c1, b1) = free_running::<f32>(pk, n, t.pick(150, 3000));
+                let (c2, b2) = free_running::<f64>(pk, n, t.pick(150, 3000));
+                calls += c1 + c2;
+                for (ty, b) in [("f32", b1), ("f64", b2)] {
+                    if let Some(msg) = b {
+                        rep.violate(format!("C11|part=free_running|pk={}|T={}|n={}", pk.name(), ty, n), format!("{} (free-running threads: not replayable schedule-by-schedule, re-run the check to see it again)", msg), Json::Null);
+                    }
+                }
+            }
+        }
+        rep.set("auxiliary_free_running_calls_SAMPLING", calls);
     }
     // ---- Send / Sync and source scan
     if only.as_ref().map(|k| k.contains("part=send_sync")).unwrap_or(true) {
